@@ -3,12 +3,22 @@ import Nsq.Model.ToFile
 import Nsq.Model.Split
 import Nsq.Model.Relay
 import Nsq.Model.ToFileTrace
+import Nsq.Model.ToFileName
+import Nsq.Model.ToFileDisc
+import Nsq.Model.ToFileMain
+import Nsq.Model.ToNsqLoop   -- relay sub-builder (C20 round 6): to_nsq main loop
+import Nsq.Model.RelayOpts   -- relay sub-builder (C20 round 6): option surface of nsq_to_http / nsq_to_nsq
 /-! Driver for engine E8 (tools): one operation per input line, one canonical answer line out.
 
 `tf …`  nsq_to_file router model (stateful: conf / pre / events / tree)
 `sp …`  to_nsq record splitter
 `rl …`  relay handlers (nsq_to_nsq, nsq_to_http)
 `tr …`  syscall-trace checker (FIN only after fsync)
+`fn …`  nsq_to_file file names (computeFilenameFormat / currentFilename)
+`mn …`  nsq_to_file main(): start-up checks (refused / started)
+`td …`  nsq_to_file TopicDiscoverer (stateful: new / upd / tick-err / hup / term)
+`lp …`  to_nsq main loop (throttle / EOF / Stop) under a given schedule      [relay block]
+`opt …` relay option surface: hdr / req / args / pass / wl / topic / hmark / nmark [relay block]
 -/
 open Nsq Nsq.Line
 
@@ -39,9 +49,10 @@ def filesLine (fs : FS) (full : Bool) : String :=
   ",".intercalate (sortStr items)
 
 structure D where
-  cfg : Cfg := ⟨false, 0, 0, false, false, 1, true⟩
+  cfg : Cfg := ⟨false, 0, 0, false, false, 1, true, false⟩
   st : St := init FS.empty
   nfin : Nat := 0
+  disc : Nsq.Model.ToFileDisc.D := {}
 
 def stateLine (d : D) : String × D :=
   let newFins := (d.st.finished.take (d.st.finished.length - d.nfin)).reverse
@@ -60,8 +71,13 @@ def tfStep (d : D) (ws : List String) : String × D :=
   | ["conf", gz, rs, ri, wd, se, mif, hr] =>
     match b01 gz, rs.toNat?, ri.toInt?, b01 wd, b01 se, mif.toNat?, b01 hr with
     | some gz, some rs, some ri, some wd, some se, some mif, some hr =>
-      ("ok", { cfg := ⟨gz, rs, ri, wd, se, mif, hr⟩, st := init FS.empty, nfin := 0 })
+      ("ok", { d with cfg := ⟨gz, rs, ri, wd, se, mif, hr, false⟩, st := init FS.empty, nfin := 0 })
     | _, _, _, _, _, _, _ => ("bad-op", d)
+  | ["conf", gz, rs, ri, wd, se, mif, hr, cc] =>   -- cc: Close() clears f.out after a successful move (fix F44), probed on the real code
+    match b01 gz, rs.toNat?, ri.toInt?, b01 wd, b01 se, mif.toNat?, b01 hr, b01 cc with
+    | some gz, some rs, some ri, some wd, some se, some mif, some hr, some cc =>
+      ("ok", { d with cfg := ⟨gz, rs, ri, wd, se, mif, hr, cc⟩, st := init FS.empty, nfin := 0 })
+    | _, _, _, _, _, _, _, _ => ("bad-op", d)
   | ["pre", dir, tmpl, rev, data] =>
     match strOfHex tmpl, rev.toNat?, unhex data with
     | some tmpl, some rev, some data =>
@@ -99,6 +115,13 @@ def stepLine (d : E8.D) (line : String) : String × E8.D :=
   | "rl" :: ws => (Nsq.Model.Relay.driverLine ws, d)
   | "tr" :: ws => (Nsq.Model.ToFileTrace.driverLine ws, d)
   | "trm" :: ws => (Nsq.Model.ToFileTrace.driverLineM ws, d)
+  | "fn" :: ws => (Nsq.Model.ToFileName.driverLine ws, d)
+  | "mn" :: ws => (Nsq.Model.ToFileMain.driverLine ws, d)
+  | "td" :: ws => let r := Nsq.Model.ToFileDisc.driverStep d.disc ws; (r.1, { d with disc := r.2 })
+  -- ---- relay block (C20 round 6, sub-builder `relay`): add new ops only below this line ----
+  | "lp" :: ws => (Nsq.Model.ToNsqLoop.driverLine ws, d)
+  | "opt" :: ws => (Nsq.Model.RelayOpts.driverLine ws, d)
+  -- ---- end of relay block ----
   | _ => ("bad-op", d)
 
 partial def loop (h : IO.FS.Stream) (out : IO.FS.Stream) (d : E8.D) : IO Unit := do
